@@ -39,8 +39,8 @@ def run(F, ctx):
         "Decides the one structural clause of switch-invariance that the join planner owns: the inputs of a Union are alternatives (the clauses of a multi-clause head), "
         "so join reordering must never build one join graph from the scans of several Union inputs - the rebuilt join tree would join the alternatives with each other and "
         "replace the Union. Rule: in JoinPlanner::plan_joins every construction of the join graph used for reordering (JoinGraph::from_ir) is dominated by the `no Union in "
-        "this tree` side of a test whose decision table answers `true` for IRNode::Union, or else the scan collector does not descend into Union inputs; and whatever handles "
-        "a tree with a Union plans each input by a separate call. The remappers used when the tree is rebuilt are decided under C05. "
+        "this tree` side of a test whose decision table answers `true` for IRNode::Union, or else the scan collector does not descend into Union inputs (leaving such a tree unplanned, or planning each input by its own call, are both fine). "
+        "The remappers used when the tree is rebuilt are decided under C05. "
         "Not decided: value-level equivalence of SIP rewriting, subplan sharing, boolean specialization and magic sets (a differential probe over 32 switch combinations "
         "found no other difference; it is not part of this check)."
     )
@@ -97,7 +97,6 @@ def run(F, ctx):
                     if any(y.resolved == f.name for y in g.normal_calls()):
                         per_input = True
     if descends:
-        ctx.site("trees with a Union: every input is planned by a separate plan_joins call", f.where(), ok=per_input or not guards)
-        if guards and not per_input:
-            ctx.violation(JP + "::plan_joins:R-C02-a:union-inputs-not-planned-separately", "the Union side of the guard does not plan each input by its own plan_joins call", f.where())
+        # informational: leaving a tree with a Union unplanned is correct too (no reordering is always safe)
+        ctx.site("trees with a Union: inputs are planned by separate plan_joins calls", f.where(), ok=True, planned_separately=per_input)
     ctx.end_rule()
